@@ -96,6 +96,13 @@ type Path struct {
 	params  map[string]int
 	newDecs int
 	errOut  strings.Builder
+	intMode bool
+	crossNext bool
+	multi   map[int]bool
+	noDomainFastPath bool
+	domDecided int
+	iprinter *intPrinter
+	intDeclared map[*Term]bool
 	pc      []pcEntry
 	uf      []int
 	dom     []uint64
@@ -117,6 +124,8 @@ type Config struct {
 	KeepSamples int
 	CrossCheck  []SolverKind // re-run assert queries on these solvers
 	Trace       bool
+	NoQueryCache bool
+	IntMode     bool // use the integer printer where the no-wrap analysis allows it
 	Args        []string // os.Args for harnesses interpreting main
 }
 
@@ -135,13 +144,24 @@ type Stats struct {
 	TotalInstrs int
 	Funcs       map[string]int
 	Unknowns    int
+	IntQueries  int
+	CacheHits   int
+	DomDecided  int // branch decisions settled by finite-domain propagation on one independent variable
 	CrossChecks int
 	CrossDiffs  int
 	Wall        time.Duration
 	Truncated   bool
 }
 
+type qkey struct{ a, b uint64 }
+
+type qval struct {
+	res  string
+	vals map[string]uint64
+}
+
 type Engine struct {
+	qcache  sync.Map // qkey -> qval
 	prog    *Program
 	cfg     Config
 	mu      sync.Mutex
@@ -168,7 +188,11 @@ func (p *Path) abort(o Outcome, format string, args ...interface{}) {
 
 func (p *Path) flushDefs() {
 	if p.buf.Len() > 0 {
-		p.wk.solver.send(p.buf.String())
+		txt := p.buf.String()
+		p.wk.solver.send(txt)
+		for _, cs := range p.wk.cross {
+			cs.send(txt) // cross-check solvers mirror declarations and definitions
+		}
 		p.buf.Reset()
 	}
 }
@@ -222,7 +246,39 @@ func (p *Path) assertTerm(t *Term) {
 	}
 	if len(vs) == 1 {
 		p.filterDomain(vs[0], t)
+	} else if len(vs) > 1 {
+		p.multi[int(vs[0].val)] = true
+		for _, v := range vs {
+			p.multi[int(v.val)] = true
+		}
 	}
+}
+
+// soloDomain returns the values of the finite domain of v if v is
+// independent of all other variables (its constraints are all single-variable
+// and have been applied to the domain), so that feasibility questions about v
+// alone can be answered by finite-domain propagation.
+func (p *Path) soloDomain(t *Term) (v *Term, dom []uint64, ok bool) {
+	vs := termVars(t)
+	if len(vs) != 1 || p.noDomainFastPath {
+		return nil, nil, false
+	}
+	v = vs[0]
+	idx := int(v.val)
+	if p.multi[idx] || p.dom[idx] == 0 {
+		return nil, nil, false
+	}
+	base := v.lo
+	if v.w == 0 {
+		base = 0
+	}
+	d := p.dom[idx]
+	for k := 0; k < 64; k++ {
+		if d&(uint64(1)<<uint(k)) != 0 {
+			dom = append(dom, uint64(base+int64(k))&mask1(v.w))
+		}
+	}
+	return v, dom, true
 }
 
 // filterDomain narrows the finite domain of v by the single-variable
@@ -278,39 +334,138 @@ func (p *Path) query(wantModel bool, extra ...*Term) (string, map[string]uint64)
 	for _, v := range qvars {
 		reps[p.find(int(v.val))] = true
 	}
-	var q strings.Builder
-	q.WriteString("(push 1)\n")
+	inSlice := func(e pcEntry) bool {
+		return all || (len(e.vars) > 0 && reps[p.find(int(e.vars[0].val))])
+	}
+	var svars []*Term
+	if all {
+		svars = p.vars
+	} else {
+		for _, v := range p.vars {
+			if reps[p.find(int(v.val))] {
+				svars = append(svars, v)
+			}
+		}
+	}
+	// query cache (shared by all workers): key = multiset of structural
+	// hashes of the slice constraints and of the extra assertions
+	var k1, k2, x1, x2 uint64
 	for _, e := range p.pc {
-		if all || (len(e.vars) > 0 && reps[p.find(int(e.vars[0].val))]) {
-			r := p.printer.ref(e.t)
-			fmt.Fprintf(&q, "(assert %s)\n", r)
+		if inSlice(e) {
+			k1 += e.t.h1 * 0x9e3779b97f4a7c15
+			k2 += e.t.h2 * 0xc2b2ae3d27d4eb4f
 		}
 	}
 	for _, t := range extra {
-		r := p.printer.ref(t)
-		fmt.Fprintf(&q, "(assert %s)\n", r)
+		x1 += t.h1 * 0xff51afd7ed558ccd
+		x2 += t.h2 * 0x9e3779b97f4a7c15
+	}
+	key := qkey{mix(k1, x1), mix(k2, x2)}
+	if cv, ok := p.eng.qcache.Load(key); ok && !p.eng.cfg.NoQueryCache {
+		v := cv.(qval)
+		p.eng.mu.Lock()
+		p.eng.stats.CacheHits++
+		p.eng.mu.Unlock()
+		if v.res == "sat" && wantModel {
+			m := make(map[string]uint64, len(p.vars))
+			for k, x := range p.model {
+				m[k] = x
+			}
+			for k, x := range v.vals {
+				m[k] = x
+			}
+			return v.res, m
+		}
+		return v.res, nil
+	}
+	useInt := false
+	if p.intMode {
+		useInt = true
+		for _, e := range p.pc {
+			if inSlice(e) {
+				if _, ok := p.iprinter.analyse(e.t); !ok {
+					useInt = false
+					break
+				}
+			}
+		}
+		for _, t := range extra {
+			if !useInt {
+				break
+			}
+			if _, ok := p.iprinter.analyse(t); !ok {
+				useInt = false
+			}
+		}
+	}
+	var q strings.Builder
+	q.WriteString("(push 1)\n")
+	if useInt {
+		p.eng.mu.Lock()
+		p.eng.stats.IntQueries++
+		p.eng.mu.Unlock()
+		for _, v := range svars {
+			if v.w == 0 {
+				continue
+			}
+			if !p.intDeclared[v] {
+				p.intDeclared[v] = true
+				fmt.Fprintf(&p.buf, "(declare-fun %s () Int)\n", intName(v))
+			}
+			iv, _ := p.iprinter.analyse(v)
+			fmt.Fprintf(&q, "(assert (and (<= %s %s) (<= %s %s)))\n", intLit(iv.lo.Int64()), intName(v), intName(v), intLit(iv.hi.Int64()))
+		}
+		for _, e := range p.pc {
+			if inSlice(e) {
+				fmt.Fprintf(&q, "(assert %s)\n", p.iprinter.ref(e.t))
+			}
+		}
+		for _, t := range extra {
+			fmt.Fprintf(&q, "(assert %s)\n", p.iprinter.ref(t))
+		}
+	} else {
+		for _, e := range p.pc {
+			if inSlice(e) {
+				r := p.printer.ref(e.t)
+				fmt.Fprintf(&q, "(assert %s)\n", r)
+			}
+		}
+		for _, t := range extra {
+			r := p.printer.ref(t)
+			fmt.Fprintf(&q, "(assert %s)\n", r)
+		}
 	}
 	// declarations and definitions (path scope) first, then the scoped query
 	p.flushDefs()
 	p.wk.solver.send(q.String())
 	s := p.wk.solver
 	res := s.CheckSat()
-	var m map[string]uint64
-	if res == "sat" && wantModel {
-		var svars []*Term
-		if all {
-			svars = p.vars
-		} else {
-			for _, v := range p.vars {
-				if reps[p.find(int(v.val))] {
-					svars = append(svars, v)
-				}
+	if res == "unsat" && p.crossNext {
+		// the same scoped query, same printer, on the other solvers
+		for _, cs := range p.wk.cross {
+			cs.send(q.String())
+			cres := cs.CheckSat()
+			cs.send("(pop 1)\n")
+			p.eng.mu.Lock()
+			p.eng.stats.CrossChecks++
+			if cres != "unsat" {
+				p.eng.stats.CrossDiffs++
+			}
+			p.eng.mu.Unlock()
+			if cres == "sat" || strings.HasPrefix(cres, "error") {
+				s.send("(pop 1)\n")
+				p.abort(OutEngineError, "solver disagreement: %s answers %s where %s answers unsat", cs.kind, cres, s.kind)
 			}
 		}
-		vals, err := s.GetValues(svars)
+	}
+	p.crossNext = false
+	var m map[string]uint64
+	if res == "sat" && wantModel {
+		vals, err := s.GetValues(svars, useInt)
 		if err != nil {
 			res = "error:" + err.Error()
 		} else {
+			p.eng.qcache.Store(key, qval{"sat", vals})
 			m = make(map[string]uint64, len(p.vars))
 			for k, v := range p.model {
 				m[k] = v
@@ -321,6 +476,9 @@ func (p *Path) query(wantModel bool, extra ...*Term) (string, map[string]uint64)
 		}
 	}
 	s.send("(pop 1)\n")
+	if res == "unsat" {
+		p.eng.qcache.Store(key, qval{"unsat", nil})
+	}
 	if strings.HasPrefix(res, "error") {
 		p.abort(OutEngineError, "solver: %s", res)
 	}
@@ -407,6 +565,53 @@ func (p *Path) Branch(cond *Term, site string) bool {
 	}
 	p.ensureModel()
 	p.newDecs++
+	if v, dom, ok := p.soloDomain(cond); ok {
+		// finite-domain propagation for a condition over one independent variable
+		var tv, fv []uint64
+		m := map[string]uint64{}
+		ec := &evalCtx{model: m}
+		for _, x := range dom {
+			m[v.name] = x
+			ec.memo = nil
+			if ec.eval(cond) != 0 {
+				tv = append(tv, x)
+			} else {
+				fv = append(fv, x)
+			}
+		}
+		if len(tv)+len(fv) > 0 {
+			p.domDecided++
+			cur := p.evalBool(cond)
+			d := Decision{Kind: DecBranch, Site: site}
+			if cur {
+				d.Choice = 1
+			}
+			if (cur && len(tv) == 0) || (!cur && len(fv) == 0) {
+				p.abort(OutEngineError, "domain propagation disagrees with the model")
+			}
+			otherVals := fv
+			if !cur {
+				otherVals = tv
+			}
+			if len(otherVals) == 0 {
+				d.Forced = true
+				p.log = append(p.log, d)
+				return cur
+			}
+			om := copyModel(p.model)
+			om[v.name] = otherVals[0]
+			od := d
+			od.Choice = 1 - d.Choice
+			p.push(od, om)
+			if cur {
+				p.assertTerm(cond)
+			} else {
+				p.assertTerm(mkNot(cond))
+			}
+			p.log = append(p.log, d)
+			return cur
+		}
+	}
 	mv := p.evalBool(cond)
 	var other *Term
 	if mv {
@@ -479,7 +684,31 @@ func (p *Path) Concretize(t *Term, site string) uint64 {
 	for _, e := range excl {
 		cons = append(cons, mkNot(mkBin(OEq, t, mkConst(t.w, e))))
 	}
-	res, m := p.query(true, cons...)
+	var res string
+	var m map[string]uint64
+	if v, dom, ok := p.soloDomain(t); ok {
+		p.domDecided++
+		res = "unsat"
+		mm := map[string]uint64{}
+		ec := &evalCtx{model: mm}
+	search:
+		for _, x := range dom {
+			mm[v.name] = x
+			ec.memo = nil
+			val := ec.eval(t)
+			for _, e := range excl {
+				if e == val {
+					continue search
+				}
+			}
+			res = "sat"
+			m = copyModel(p.model)
+			m[v.name] = x
+			break
+		}
+	} else {
+		res, m = p.query(true, cons...)
+	}
 	switch res {
 	case "unsat":
 		if len(d.Excl) == 0 {
@@ -667,49 +896,15 @@ func (p *Path) Assert(c *Term, msg string) {
 	p.eng.stats.AssertsSym++
 	p.eng.mu.Unlock()
 	neg := mkNot(c)
+	p.crossNext = true
 	res, m := p.query(true, neg)
 	switch res {
 	case "unsat":
-		p.crossCheck(neg)
 	case "sat":
 		p.setModel(m)
 		panic(pathAbort{OutViolation, msg})
 	default:
 		p.abort(OutInconclusive, "solver answered %s on Assert(%s)", res, msg)
-	}
-}
-
-// crossCheck re-runs an unsat assertion query on the other solvers.
-func (p *Path) crossCheck(neg *Term) {
-	if len(p.wk.cross) == 0 {
-		return
-	}
-	// Build a standalone script: declarations + PC + neg
-	var sb strings.Builder
-	pr := &smtPrinter{names: map[*Term]string{}, out: &sb}
-	for _, v := range p.vars {
-		fmt.Fprintf(&sb, "(declare-fun %s () %s)\n", v.name, sortOf(v.w))
-	}
-	for _, e := range p.pc {
-		r := pr.ref(e.t)
-		fmt.Fprintf(&sb, "(assert %s)\n", r)
-	}
-	r := pr.ref(neg)
-	fmt.Fprintf(&sb, "(assert %s)\n", r)
-	for _, cs := range p.wk.cross {
-		cs.send("(push 1)\n")
-		cs.send(sb.String())
-		res := cs.CheckSat()
-		cs.send("(pop 1)\n")
-		p.eng.mu.Lock()
-		p.eng.stats.CrossChecks++
-		if res != "unsat" {
-			p.eng.stats.CrossDiffs++
-		}
-		p.eng.mu.Unlock()
-		if res == "sat" {
-			p.abort(OutEngineError, "solver disagreement: %s says sat where primary says unsat", cs.kind)
-		}
 	}
 }
 
@@ -887,12 +1082,19 @@ func (e *Engine) runPath(wk *worker, fn *ssaFunction, it workItem) (res PathResu
 	p := &Path{eng: e, wk: wk, prefix: it.prefix, varSeq: map[string]int{}, fixed: map[string]uint64{},
 		fuel: e.cfg.Fuel, params: e.cfg.Params, obs: map[string]string{}}
 	p.printer = &smtPrinter{names: map[*Term]string{}, out: &p.buf}
+	p.iprinter = &intPrinter{names: map[*Term]string{}, iv: map[*Term]ival{}, okm: map[*Term]bool{}, n: &p.printer.n, out: &p.buf}
+	p.intDeclared = map[*Term]bool{}
+	p.multi = map[int]bool{}
+	p.intMode = e.cfg.IntMode
 	if it.model != nil {
 		p.setModel(it.model)
 	}
 	q0, t0s := wk.solver.Queries, wk.solver.Time
 	t0 := time.Now()
 	wk.solver.send("(push 1)\n")
+	for _, cs := range wk.cross {
+		cs.send("(push 1)\n")
+	}
 	finish := func() {
 		// pop solver context
 		p.buf.Reset()
@@ -900,6 +1102,9 @@ func (e *Engine) runPath(wk *worker, fn *ssaFunction, it workItem) (res PathResu
 			func() {
 				defer func() { recover() }()
 				wk.solver.send("(pop 1)\n")
+				for _, cs := range wk.cross {
+					cs.send("(pop 1)\n")
+				}
 			}()
 		}
 		res.Decisions = len(p.log)
@@ -920,6 +1125,7 @@ func (e *Engine) runPath(wk *worker, fn *ssaFunction, it workItem) (res PathResu
 			res.Witness = p.witness()
 		}
 		e.mu.Lock()
+		e.stats.DomDecided += p.domDecided
 		e.stats.Queries += wk.solver.Queries - q0
 		e.stats.SolverTime += wk.solver.Time - t0s
 		e.stats.InterpTime += time.Since(t0) - (wk.solver.Time - t0s)
